@@ -35,7 +35,7 @@ def dictGetOptO {κ β} [BEq κ] (d : List (κ × β)) (k : Option κ) : Option 
   | none => none
 
 /-- `d[k]` for a key that may be falsy: KeyError -/
-def dictGetO {κ β} [BEq κ] (d : List (κ × β)) (k : Option κ) : M β :=
+def dictGetKO {κ β} [BEq κ] (d : List (κ × β)) (k : Option κ) : M β :=
   match k with
   | some k => dictGet d k
   | none => throw (.fault "KeyError")
